@@ -259,13 +259,6 @@ pub impl NodePath {
 }
 
 #[ext]
-pub impl String {
-    fn to_url(&self, base_path: &BasePath) -> Url {
-        base_path.name_to_url(&self.clone())
-    }
-}
-
-#[ext]
 pub impl Key {
     fn to_full_url(&self, base_path: &BasePath) -> Url {
         base_path.key_to_url(&self.clone())
